@@ -51,12 +51,14 @@ def fingerprint(o: Dict[str, Any], inv: str) -> Dict[str, Any]:
 
 
 def main() -> int:
-    ck = core.Check("C25", "exploration")
     replay = os.environ.get("VERIF_REPLAY")
+    # (core.Check wipes replays/<id>: read the replay file first)
+    replay_doc = core.read_json(pathlib.Path(replay)) if replay else None
+    ck = core.Check("C25", "exploration")
     trees_p = ck.work / "trees.json"
     n_entries = 0
     if replay:
-        rp = core.read_json(pathlib.Path(replay))
+        rp = replay_doc
         core.write_json(trees_p, [{"entries": rp["case"]["entries"]}])
     else:
         res = ck.tlc("SnippetsGen", "SnippetsGen%s.cfg" % ("" if ck.quick else "_thorough"), what="G: directory trees", env={"VERIF_OUT": str(trees_p)}, count=False, seed=ck.seed + 1, jvm=JVM, timeout=1200)
